@@ -12,6 +12,14 @@
           stream replaces the value of each key of each type by one value of every other object type (`basicJunk`) and
           by the near misses of its kind (`junkFor`: rectangles of 3/5 numbers, date strings, tree nodes, each name tree
           of the name dictionary, each /Resources sub-entry, arrays with one element of the wrong type).
+          BY-REFERENCE family (streams xr1 xr2 xa1 xa2 mr1 mr2 vr1 vr2): every wrong-type / unlisted-name mutation ALSO with
+          the offending value moved into a NEW indirect object (the entry becomes `n 0 R`; `r2`: `n 0 R` -> `n+1 0 R` ->
+          value), wherever the regenerated shipped specification declares the entry with IndirectSpec Allowed
+          (`indAllowed`: read off `Gen.CatalogSpec`, every occurrence of the dictionary type); expected verdict: rejected
+          (a reference denotes its target: dereference, then check).  Twin on the accepting side: a PRESENT well-typed
+          entry moved behind one / two references must still be accepted.  These by-reference cases are decided by the
+          declarative reading of the regenerated specification (`Spec.conf`, which must agree with the expectation, else
+          `spec-gap-...`) -- the proved theorems `mutated_rejected` / `rendered_conforms` speak about the in-place forms.
   judge : the RULES of Spec/CatalogRules.lean: the case is re-derived from (seed, stream, idx), the document
           must be well-formed, the mutation a valid single-rule violation, and the line must be exactly its
           rendering; a rendered document must be accepted, a mutated one rejected.  When the implementation
@@ -413,18 +421,163 @@ def mutationsAt (d : Doc) (w : Where) : List Mutation :=
                dictOf [(CatalogRules.kType, .name CatalogRules.kPages)]].map fun v => Mutation.directParent w v
     drops ++ adds ++ names ++ wrong ++ dk ++ dp
 
+/-! ### the same violations with the offending value given BY INDIRECT REFERENCE -/
+
+/-- navigation in the regenerated shipped specification (the definitions of Props/C10.lean) -/
+def res (c : Chk) : Chk := (resolve shippedCtx c).getD c
+
+def findEnt : ChkL → Bytes → Option (KeySpec × Chk)
+  | .nil, _ => none
+  | .cons k o c t, key => if k = key then some (o, c) else findEnt t key
+
+def entsOf : Chk → ChkL
+  | .dict _ es | .dictStar _ es _ _ | .stream _ es => es
+  | _ => .nil
+
+def entChk (c : Chk) (key : Bytes) : Chk :=
+  match findEnt (entsOf (res c)) key with
+  | some (_, x) => res x
+  | none => .named "no such entry"
+
+def elemOf (c : Chk) : Chk :=
+  match res c with
+  | .array _ e _ => res e
+  | _ => .named "not an array"
+
+def altsOf (c : Chk) : List Chk :=
+  match res c with
+  | .disj _ os => os.chks.map res
+  | _ => []
+
+def rootChk : Chk := entChk shippedCat CatalogRules.kPages
+def rootKid : Chk := elemOf (entChk rootChk CatalogRules.kKids)
+def nodeChk : Chk := (altsOf rootKid).getD 0 (.named "?")
+def nodeKid : Chk := elemOf (entChk nodeChk CatalogRules.kKids)
+
+/-- every occurrence of the shipped dictionary type of a position kind (pages, templates and inner nodes occur below
+    the root and below an inner node) -/
+def typesOf : DictKind → List Chk
+  | .catalog => [shippedCat]
+  | .root => [rootChk]
+  | .node => [nodeChk, (altsOf nodeKid).getD 1 (.named "?")]
+  | .page => [(altsOf rootKid).getD 1 (.named "?"), (altsOf nodeKid).getD 0 (.named "?")]
+  | .tmpl => [(altsOf rootKid).getD 2 (.named "?"), (altsOf nodeKid).getD 2 (.named "?")]
+
+def indIsAllowed (c : Chk) : Bool :=
+  match c.attr.ind with
+  | .allowed => true
+  | _ => false
+
+/-- IndirectSpec Allowed on the check and, for a disjunction, on each of its alternatives -/
+def chkIndAllowed (c : Chk) : Bool :=
+  match res c with
+  | .named _ => false
+  | .disj a os => indIsAllowed (.disj a os) && os.chks.all fun alt => indIsAllowed (res alt)
+  | r => indIsAllowed r
+
+/-- does the SHIPPED specification allow the value of entry `key` of a dictionary of kind `k` to be given by indirect
+    reference?  Every occurrence of the type must declare the entry, with IndirectSpec Allowed. -/
+def indAllowed (k : DictKind) (key : Bytes) : Bool :=
+  (typesOf k).all fun c =>
+    match findEnt (entsOf (res c)) key with
+    | some (_, x) => chkIndAllowed x
+    | none => false
+
+mutual
+def maxNum : Obj → Nat
+  | .arr xs | .dict xs | .stream xs _ _ => maxNumL xs
+  | .ref n _ => n
+  | _ => 0
+def maxNumL : ObjL → Nat
+  | .nil => 0
+  | .cons _ v t => max (maxNum v) (maxNumL t)
+end
+
+/-- an object number above every number defined or mentioned in the document and in the value -/
+def freshNum (r : Graph × Obj) (v : Obj) : Nat :=
+  1 + r.1.foldl (fun m e => max m (max e.1.1 (maxNum e.2))) (max (maxNum r.2) (maxNum v))
+
+/-- `n 0 obj v` (hops = 1), or `n 0 obj n+1 0 R`, ..., ending in `v` -/
+def chainDefs (n : Nat) (v : Obj) : Nat → Graph
+  | 0 => []
+  | 1 => [((n, 0), v)]
+  | h+1 => ((n, 0), .ref (n + 1) 0) :: chainDefs (n + 1) v h
+
+/-- entry `key` at position `w` becomes a reference to a NEW object holding `v` (behind `hops` references) -/
+def moveBehind (hops : Nat) (w : Where) (key : Bytes) (v : Obj) (r : Graph × Obj) : Graph × Obj :=
+  let n := freshNum r v
+  let e := CatalogRules.editAt w (CatalogRules.ObjL.set key (.ref n 0)) r
+  (e.1 ++ chainDefs n v hops, e.2)
+
+/-- what a generated case does to its document -/
+inductive Variant where
+  | plain                                      -- the rendered document
+  | mutated (m : Mutation) (hops : Nat)        -- a single-rule mutation; hops > 0: offending value behind references
+  | byRef (w : Where) (key : Bytes) (hops : Nat)  -- a present well-typed entry moved behind references (hops > 0)
+
+/-- the key whose value a mutation replaces (mutations without an offending VALUE have no by-reference form) -/
+def offending : Mutation → Option (Where × Bytes × Obj)
+  | .wrongType w key v => some (w, key, v)
+  | .unlistedName w key n => some (w, key, .name n)
+  | _ => none
+
+/-- a valid single-rule violation (`Mutation.valid`) whose offending value may be given by reference there -/
+def mutValid (d : Doc) (m : Mutation) (hops : Nat) : Bool :=
+  m.valid d && (hops == 0 ||
+    match offending m with
+    | some (w, key, _) =>
+      (match CatalogRules.locate d w with
+       | some (k, _, _, _) => indAllowed k key
+       | none => false)
+    | none => false)
+
+/-- the present entries of position `w` that the rules type by VALUE (not structural) and the shipped specification
+    allows to be indirect -/
+def twinsAt (d : Doc) (w : Where) : List (Where × Bytes) :=
+  match CatalogRules.locate d w with
+  | some (k, .dict kvs, _, _) =>
+    (CatalogRules.keyTable k).filterMap fun (key, vk) =>
+      if !CatalogRules.structural vk && (kvs.get key).isSome && indAllowed k key then some (w, key) else none
+  | _ => []
+
+def twinValid (d : Doc) (w : Where) (key : Bytes) (hops : Nat) : Bool :=
+  hops > 0 && (twinsAt d w).any fun p => decide (p.2 = key)
+
+def applyVariant (d : Doc) : Variant → Graph × Obj
+  | .plain => CatalogRules.render d
+  | .mutated m 0 => CatalogRules.mutate m d
+  | .mutated m hops =>
+    match offending m with
+    | some (w, key, v) => moveBehind hops w key v (CatalogRules.render d)
+    | none => CatalogRules.mutate m d
+  | .byRef w key hops =>
+    match CatalogRules.locate d w with
+    | some (_, .dict kvs, _, _) =>
+      match kvs.get key with
+      | some v => moveBehind hops w key v (CatalogRules.render d)
+      | none => CatalogRules.render d
+    | _ => CatalogRules.render d
+
+def variantValid (d : Doc) : Variant → Bool
+  | .plain => true
+  | .mutated m hops => mutValid d m hops
+  | .byRef w key hops => twinValid d w key hops
+
 /-- every candidate mutation at every position (valid or not: `Mutation.valid` filters) -/
 def candidates (d : Doc) : Array Mutation := ((positions d).flatMap (mutationsAt d)).toArray
 
 def allMutations (d : Doc) : List Mutation := (candidates d).toList.filter (Mutation.valid d)
 
+/-- every present entry that may be moved behind a reference, at every position -/
+def twins (d : Doc) : Array (Where × Bytes) := ((positions d).flatMap (twinsAt d)).toArray
+
 /-- a random valid candidate (a bounded number of draws) -/
-def pickValid (d : Doc) (cs : Array Mutation) : Nat → Rng → Option Mutation
+def pickValid (d : Doc) (cs : Array Mutation) (hops : Nat) : Nat → Rng → Option Mutation
   | 0, _ => none
   | n+1, r =>
     let (i, r) := r.nat cs.size
     match cs[i]? with
-    | some m => if m.valid d then some m else pickValid d cs n r
+    | some m => if mutValid d m hops then some m else pickValid d cs hops n r
     | none => none
 
 /-- fixed small documents for the exhaustive stream -/
@@ -440,37 +593,58 @@ def fixedDocs : List Doc :=
 
 def sizes (tier : String) : Nat × Nat := if tier == "thorough" then (3, 4) else (2, 3)
 
-/-- the (document, mutation) a generated case stands for -/
-def caseOf (seed : Nat) (stream : String) (idx : Nat) : Option (Doc × Option Mutation) :=
-  if stream == "x" then
-    -- exhaustive: document idx / 100000, mutation idx % 100000 (0 = none)
+/-- stream names: `x` exhaustive mutations in place, `xr1` `xr2` the same by reference (one / two hops), `xa1` `xa2`
+    exhaustive accepted twins; `v` `m` random conforming / mutated documents, `mr1` `mr2` mutated by reference, `vr1` `vr2`
+    conforming with one entry by reference; a final `T` = sizes of the thorough tier -/
+def hopsOf (stream : String) : Nat :=
+  if (stream.splitOn "1").length > 1 then 1 else if (stream.splitOn "2").length > 1 then 2 else 0
+
+/-- the (document, variant) a generated case stands for -/
+def caseOf (seed : Nat) (stream : String) (idx : Nat) : Option (Doc × Variant) :=
+  let hops := hopsOf stream
+  if stream.startsWith "x" then
+    -- exhaustive: document idx / 100000, mutation (accepted twin) idx % 100000 (0 = none)
     match fixedDocs[idx / 100000]? with
     | none => none
     | some d =>
       let mi := idx % 100000
-      if mi == 0 then some (d, none) else
+      if mi == 0 then (if stream == "x" then some (d, .plain) else none) else
+      if stream.startsWith "xa" then
+        match (twins d)[mi - 1]? with
+        | some (w, key) => some (d, .byRef w key hops)
+        | none => none
+      else
         match (candidates d)[mi - 1]? with
-        | some m => some (d, some m)
+        | some m => some (d, .mutated m hops)
         | none => none
   else
     let r := Rng.mk' (seed * 1000003 + idx * 7919 + 13)
     let (depth, fan) := if stream.endsWith "T" then (3, 4) else (2, 3)
     let (d, r) := genDoc depth fan r
-    if stream.startsWith "v" then some (d, none)
+    if stream.startsWith "v" then
+      if hops == 0 then some (d, .plain) else
+        let ts := twins d
+        let (i, _) := r.nat ts.size
+        match ts[i]? with
+        | some (w, key) => some (d, .byRef w key hops)
+        | none => some (d, .plain)
     else
-      some (d, pickValid d (candidates d) 40 r)
-
-def renderCase (d : Doc) (m : Option Mutation) : Graph × Obj :=
-  match m with
-  | none => CatalogRules.render d
-  | some m => CatalogRules.mutate m d
+      match pickValid d (candidates d) hops 40 r with
+      | some m => some (d, .mutated m hops)
+      | none => some (d, .plain)
 
 def lineOf (seed : Nat) (stream : String) (idx : Nat) : Option String :=
   match caseOf seed stream idx with
   | none => none
-  | some (d, m) =>
-    let (g, o) := renderCase d m
+  | some (d, v) =>
+    let (g, o) := applyVariant d v
     some (sBody "c10" g o ++ s!" | {seed} {stream} {idx}")
+
+/-- the fixed documents whose by-reference forms are enumerated: all five in the thorough tier; in the quick tier the
+    one-page document and the document with EVERY entry (root -> page, template, node -> page) for one hop, the
+    document with every entry for two hops -/
+def byRefDocs (tier : String) (hops : Nat) : List Nat :=
+  if tier == "thorough" then List.range fixedDocs.length else if hops == 1 then [1, 2] else [2]
 
 def gen (seed n : Nat) (tier : String) (emit : String → IO Unit) : IO Unit := do
   -- exhaustive stream: every single-rule mutation at every position of the fixed documents
@@ -486,6 +660,25 @@ def gen (seed n : Nat) (tier : String) (emit : String → IO Unit) : IO Unit := 
           let (g, o) := CatalogRules.mutate m d
           emit (sBody "c10" g o ++ s!" | {seed} x {di * 100000 + mi + 1}")
       | none => pure ()
+  -- the same violations, and the accepted twins, by indirect reference
+  for hops in [1, 2] do
+    for di in byRefDocs tier hops do
+      let d := fixedDocs[di]?.getD ⟨CatOpts.none, 1, 0, .nil⟩
+      let cs := candidates d
+      for mi in List.range cs.size do
+        match cs[mi]? with
+        | some m =>
+          if mutValid d m hops then
+            let (g, o) := applyVariant d (.mutated m hops)
+            emit (sBody "c10" g o ++ s!" | {seed} xr{hops} {di * 100000 + mi + 1}")
+        | none => pure ()
+      let ts := twins d
+      for ti in List.range ts.size do
+        match ts[ti]? with
+        | some (w, key) =>
+          let (g, o) := applyVariant d (.byRef w key hops)
+          emit (sBody "c10" g o ++ s!" | {seed} xa{hops} {di * 100000 + ti + 1}")
+        | none => pure ()
   let sfx := if tier == "thorough" then "T" else ""
   for i in List.range n do
     match lineOf seed ("v" ++ sfx) i with
@@ -495,6 +688,15 @@ def gen (seed n : Nat) (tier : String) (emit : String → IO Unit) : IO Unit := 
     match lineOf seed ("m" ++ sfx) i with
     | some l => emit l
     | none => pure ()
+  for hops in [1, 2] do
+    for i in List.range n do
+      match lineOf seed (s!"mr{hops}" ++ sfx) i with
+      | some l => emit l
+      | none => pure ()
+    for i in List.range (n / 2) do
+      match lineOf seed (s!"vr{hops}" ++ sfx) i with
+      | some l => emit l
+      | none => pure ()
 
 /-! ### judge -/
 
@@ -505,6 +707,16 @@ def mutClass : Mutation → String
   | .unlistedName .. => "unlisted-name"
   | .directKid .. => "direct-kid"
   | .directParent .. => "direct-parent"
+
+def variantClass : Variant → String
+  | .plain => "conforming"
+  | .mutated m 0 => mutClass m
+  | .mutated m hops => s!"{mutClass m}-by-ref{hops}"
+  | .byRef _ _ hops => s!"conforming-by-ref{hops}"
+
+def variantHops : Variant → Nat
+  | .plain => 0
+  | .mutated _ hops | .byRef _ _ hops => hops
 
 /-- the declarative reading (`Spec.conf`, Spec/Conforms.lean) of the regenerated shipped specification;
     the unfolding depth exceeds three levels per object of the graph plus the depth of any leaf value -/
@@ -520,6 +732,9 @@ def repairs : List (String × Fix) :=
   [("any-entry-skips-indirect", { Fix.tree with anyInd := true }), ("memo-leak", { Fix.tree with trail := true })]
 
 def classify (c : Case) (want : String) : String :=
+  -- the model of the code AS IT IS already gives the expected verdict: none of the recorded engine findings explains
+  -- the implementation's answer
+  if verdictOf (checkTypeFuel Fix.tree c.g shippedCtx fuel c.obj shippedCat).1 == want then "impl-differs-from-model" else
   let hit := repairs.find? fun p =>
     verdictOf (checkTypeFuel p.2 c.g shippedCtx fuel c.obj shippedCat).1 == want
   match hit with
@@ -547,20 +762,24 @@ def judge (line impl : String) : String :=
       | [seed, stream, idx] =>
         match caseOf seed.toNat! stream idx.toNat! with
         | none => "bad stale-case no such case"
-        | some (d, m) =>
-          let (g, o) := renderCase d m
+        | some (d, v) =>
+          let (g, o) := applyVariant d v
           if sBody "c10" g o != c.body then "bad stale-case the line is not the rendering of the case it names" else
           if !d.ok then "skip" else
-          if !(match m with | none => true | some m => m.valid d) then "skip" else
-          let want := if m.isNone then "accept" else "reject"
-          let cls := match m with | none => "conforming" | some m => mutClass m
+          if !variantValid d v then "skip" else
+          let want := match v with | .mutated .. => "reject" | _ => "accept"
+          let cls := variantClass v
+          -- the by-reference expectations are not covered by mutated_rejected / rendered_conforms: the declarative
+          -- reading of the regenerated specification must confirm each of them, whatever the implementation answers
+          if variantHops v > 0 && decl != want then
+            s!"bad spec-gap-{cls} oracle={want} shipped-declarative={decl} impl={got}" else
           if got == want then "ok"
           else if decl != want then s!"bad spec-gap-{cls} oracle={want} shipped-declarative={decl} impl={got}"
           else s!"bad {classify c want} oracle={want} impl={got} ({cls})"
       | _ => "bad bad-case"
 
-/-- non-trivial: a mutated document, or a conforming one whose page tree has a kid and that carries at least one
-    optional entry (the dictionaries hold more than the required keys) -/
+/-- non-trivial: a mutated document, a document with an entry moved behind references, or a conforming one whose page
+    tree has a kid and that carries at least one optional entry (the dictionaries hold more than the required keys) -/
 def nontrivial (line : String) : Bool :=
   match parseCase line with
   | none => false
@@ -568,8 +787,9 @@ def nontrivial (line : String) : Bool :=
     match c.extra with
     | [seed, stream, idx] =>
       match caseOf seed.toNat! stream idx.toNat! with
-      | some (d, some _) => d.kids.toList.length > 0 || true
-      | some (d, none) =>
+      | some (_, .mutated ..) => true
+      | some (_, .byRef ..) => true
+      | some (d, .plain) =>
         d.kids.toList.length > 0 &&
           (c.g.any fun e => match e.2 with | .dict kvs => kvs.toList.length > 4 | _ => false) ||
           (match c.obj with | .dict kvs => kvs.toList.length > 2 | _ => false)
